@@ -55,6 +55,7 @@ static int cg_opt_rich = 0;        /* larger token sets (thorough) */
 static int cg_opt_decor = 1;       /* decorations at all */
 static int cg_opt_blankws = 1;     /* blank lines made of blanks */
 static int cg_opt_nofinalnl = 1;   /* last line without newline as a decoration */
+static int cg_opt_tiny = 0;        /* minimal token sets: one key, values {empty, v, "q"} (used where the neighbourhood of a line matters, not the tokens) */
 
 static int cg_prev_allows_cont(int i)
 {
@@ -73,7 +74,7 @@ static int cg_seps(char out[][8])
       snprintf(out[n++], 8, "%c", *d);
       if (!cg_opt_decor) continue;
       snprintf(out[n++], 8, " %c", *d); snprintf(out[n++], 8, "%c ", *d); snprintf(out[n++], 8, " %c ", *d);
-      snprintf(out[n++], 8, "\t%c\t", *d); snprintf(out[n++], 8, "  %c  ", *d);
+      snprintf(out[n++], 8, "\t%c\t", *d); snprintf(out[n++], 8, "  %c  ", *d); snprintf(out[n++], 8, "%c  ", *d);
     }
   } else if (cg.cls == CLS_BLANK) {
     snprintf(out[n++], 8, " ");
@@ -86,7 +87,7 @@ static int cg_seps(char out[][8])
     if (cg_opt_decor) {
       snprintf(out[n++], 8, " "); snprintf(out[n++], 8, " %c ", cg.dn); snprintf(out[n++], 8, "%c ", cg.dn);
       snprintf(out[n++], 8, " %c", cg.dn); snprintf(out[n++], 8, "\t"); snprintf(out[n++], 8, "  %c  ", cg.dn);
-      snprintf(out[n++], 8, "  ");
+      snprintf(out[n++], 8, "  "); snprintf(out[n++], 8, "%c \t", cg.dn);
     }
   }
   return n;
@@ -105,17 +106,18 @@ static const char *cg_heads[3] = { "A", "B", "A B" };
 static void cg_build_tables(void)
 {
   memset(&cgt, 0, sizeof cgt);
-  cgt.keys[cgt.nkeys++] = "k"; cgt.keys[cgt.nkeys++] = "a.b-c";
+  cgt.keys[cgt.nkeys++] = "k"; if (!cg_opt_tiny) cgt.keys[cgt.nkeys++] = "a.b-c";
   if (cg_opt_rich) cgt.keys[cgt.nkeys++] = "key2";
   if (cg.cls == CLS_NONE) cgt.keys[cgt.nkeys++] = "a b";
   if (cg.cls != CLS_NONE) {
     snprintf(cgt.uv[cgt.nuv++], 16, "%s", "");
     snprintf(cgt.uv[cgt.nuv++], 16, "%s", "v");
-    snprintf(cgt.uv[cgt.nuv++], 16, "%s", "v w");
+    if (!cg_opt_tiny) snprintf(cgt.uv[cgt.nuv++], 16, "%s", "v w");
     if (cg_opt_rich) snprintf(cgt.uv[cgt.nuv++], 16, "%s", "1");
-    if (cg.cls == CLS_NONBLANK || cg.cls == CLS_MIXED)
+    if (!cg_opt_tiny && (cg.cls == CLS_NONBLANK || cg.cls == CLS_MIXED))
       for (const char *d = cg.D; *d; d++) if (*d != ' ' && *d != '\t') snprintf(cgt.uv[cgt.nuv++], 16, "a%cb", *d);
-    if (cg_opt_quoted) {
+    if (cg_opt_quoted && cg_opt_tiny) snprintf(cgt.qv[cgt.nqv++], 16, "%s", "q");
+    else if (cg_opt_quoted) {
       snprintf(cgt.qv[cgt.nqv++], 16, "%s", "q");
       snprintf(cgt.qv[cgt.nqv++], 16, "%s", " q ");
       for (const char *c = cg.C; *c; c++) snprintf(cgt.qv[cgt.nqv++], 16, "a%cb", *c);
@@ -349,10 +351,14 @@ static int cg_split_trim(const char *s, char out[][256], int max)
 static int cg_value_matches(const char *got, const cg_ent *e)
 {
   char pieces[CG_MAXLINES + 2][256];
-  if (e->quoted) return streq0(got, e->lines[0]);   /* quoted: exact text between the quotes, one line */
+  if (e->quoted || e->nl == 1) return streq0(got, e->lines[0]);   /* one line: exactly the text, outer blanks removed */
+  /* several lines: the first one exactly, the continuation lines blank-trimmed (the plain getter keeps their indentation) */
+  const char *nl = got ? strchr(got, '\n') : NULL;
+  if (!nl) return 0;
+  if ((size_t)(nl - got) != strlen(e->lines[0]) || strncmp(got, e->lines[0], (size_t)(nl - got))) return 0;
   int n = cg_split_trim(got, pieces, CG_MAXLINES + 2);
   if (n != e->nl) return 0;
-  for (int i = 0; i < n; i++) if (strcmp(pieces[i], e->lines[i])) return 0;
+  for (int i = 1; i < n; i++) if (strcmp(pieces[i], e->lines[i])) return 0;
   return 1;
 }
 
